@@ -728,6 +728,12 @@ void token_split_on_char(token * t, const char * source, const char c) {
 		if (source[start + pos] == c) {
 			new = token_new(t->type, start + pos + 1, stop - (pos + 1));
 			new->next = t->next;
+			new->prev = t;
+
+			if (new->next) {
+				new->next->prev = new;
+			}
+
 			t->next = new;
 
 			t->len = pos;
